@@ -18,8 +18,8 @@ log="$(mktemp)"
 trap 'rm -f "$log"' EXIT
 timeout $((secs + 900)) cargo +nightly fuzz run all_entry_points "$corpus" -- -max_total_time="$secs" -timeout=10 -max_len=300 -fork=16 -artifact_prefix="$art" >"$log" 2>&1
 rc=$?
-if ls "$art"/crash-* "$art"/timeout-* "$art"/oom-* >/dev/null 2>&1; then
-    f=$(ls -t "$art"/crash-* "$art"/timeout-* "$art"/oom-* 2>/dev/null | head -1)
+f=$(find "$art" -maxdepth 1 -type f \( -name 'crash-*' -o -name 'timeout-*' -o -name 'oom-*' \) -printf '%T@ %p\n' 2>/dev/null | sort -rn | head -1 | cut -d' ' -f2-)
+if [ -n "$f" ]; then
     grep -E "panicked|ERROR: AddressSanitizer|SUMMARY" "$log" | head -5
     echo "    input: $(head -c 300 "$f" | tr '\n' ' ')"
     echo "VIOLATION property=$id replay=$f"
